@@ -120,6 +120,12 @@ def tpBytes (tp : Tp) (v6 : Bool) (src dst payload : Bytes) : Option Bytes :=
       some ([128, 0] ++ enc16 c ++ enc16 id ++ enc16 seq)
     else none
 
+/-- the transport header part (no `write_all` when there is no transport header). -/
+def tpParts (tp : Tp) (t : Bytes) : List Bytes :=
+  match tp with
+  | .none => []
+  | _ => [t]
+
 /-- `final_write_with_net` as parts + final content error (canonical text). -/
 def ser (p : Packet) : Ser String :=
   let pre := linkParts p ++ vlanParts p
@@ -139,7 +145,7 @@ def ser (p : Packet) : Ser String :=
       let h : CodecNet.Ipv4Header := { h0 with headerChecksum := h0.calcHeaderChecksum }
       match tpBytes p.tp false src dst p.payload with
       | none => { parts := pre ++ [h.toBytes], fin := .error "err(icmpv6inipv4)" }
-      | some t => { parts := pre ++ [h.toBytes] ++ (if p.tp matches .none then [] else [t]) ++ [p.payload],
+      | some t => { parts := pre ++ [h.toBytes] ++ tpParts p.tp t ++ [p.payload],
                     fin := .ok () }
   | .v6 src dst hop =>
     let value := tpHeaderLen p.tp + n
@@ -151,15 +157,24 @@ def ser (p : Packet) : Ser String :=
           hopLimit := hop, source := src, destination := dst }
       match tpBytes p.tp true src dst p.payload with
       | none => { parts := pre ++ [h.toBytes], fin := .error "err(icmpv6inipv4)" }
-      | some t => { parts := pre ++ [h.toBytes] ++ (if p.tp matches .none then [] else [t]) ++ [p.payload],
+      | some t => { parts := pre ++ [h.toBytes] ++ tpParts p.tp t ++ [p.payload],
                     fin := .ok () }
+
+def linkLen : Link → Nat
+  | .none => 0
+  | .eth2 .. => 14
+def vlanLen : VlanSel → Nat
+  | .none => 0
+  | .single _ => 4
+  | .double .. => 8
+def netLen : Net → Nat
+  | .v4 .. => 20
+  | .v6 .. => 40
+  | .arp a => a.headerLen
 
 /-- `final_size` -/
 def finalSize (p : Packet) : Nat :=
-  (match p.link with | .none => 0 | .eth2 .. => 14) +
-  (match p.vlan with | .none => 0 | .single _ => 4 | .double .. => 8) +
-  (match p.net with | .v4 .. => 20 | .v6 .. => 40 | .arp a => a.headerLen) +
-  tpHeaderLen p.tp + p.payload.length
+  linkLen p.link + vlanLen p.vlan + netLen p.net + tpHeaderLen p.tp + p.payload.length
 
 /-- `write_to_slice` -/
 def writeToSlice (p : Packet) (buf : Bytes) : Bytes × Except (BuildSliceErr String) Nat :=
